@@ -946,7 +946,7 @@ def cache_fft(time_series, ij, lb=0, ub=None,
         NFFT = method.get('NFFT', 64)
         Fs = method.get('Fs', 2 * np.pi)
         window = method.get('window', mlab.window_hanning)
-        n_overlap = method.get('n_overlap', int(np.ceil(NFFT / 2.0)))
+        n_overlap = method.get('n_overlap', int(np.ceil(NFFT // 2)))
     else:
         e_s = "For cache_fft, spectral estimation method must be welch"
         raise ValueError(e_s)
